@@ -57,6 +57,13 @@ Theorem duration_forms : forall (f : format) (key : str -> list (str * str) -> s
              omap VPtr (decode_int 64 z)).
 Proof. exact duration_forms_l. Qed.
 
+(* Sets written as lists: with the set-slice wrapper (ez puts it around every
+   file decoder) a set field is read from a list in every format. *)
+Theorem set_as_list : forall f d pfs,
+  dec_ok (setslice_fields pfs) = true -> tags_wf f (setslice_fields pfs) = true ->
+  decode_wrapped f d pfs = spec_wrapped f d pfs.
+Proof. exact set_as_list_l. Qed.
+
 (* An ill-typed, out-of-range or malformed value anywhere under a present key
    makes the whole decode fail: never a partially filled value. *)
 Theorem error_is_total : forall f kvs pfs n tags t d,
@@ -72,3 +79,4 @@ Print Assumptions decoders_agree_refuted.
 Print Assumptions absent_is_unset.
 Print Assumptions duration_forms.
 Print Assumptions error_is_total.
+Print Assumptions set_as_list.
